@@ -1,6 +1,6 @@
 (* Extract/ExtractSyntax.v — entry point of the syntax models (parser; later serializer) for the
    correspondence check.  Result shapes are those of harness/src/bin/syn_run.rs. *)
-From FluentV Require Import Base.Sexp Base.Bytes Base.Outcome Base.Utf8 Syntax.Ast Syntax.ParserModel.
+From FluentV Require Import Base.Sexp Base.Bytes Base.Outcome Base.Utf8 Syntax.Ast Syntax.ParserModel Syntax.SerializerModel.
 
 Definition enc_kind (k : ekind) : list sexp :=
   match k with
@@ -54,6 +54,39 @@ Definition run_case (c : sexp) : sexp :=
         L [sym "ok"; a; a; b; b; tn; L [sym "same"; sym "true"; sym "true"]]
       else if is_sym "parse" t || is_sym "parse_owned" t then enc_parse_result (parse text)
       else if is_sym "parse_runtime" t || is_sym "parse_runtime_owned" t then enc_parse_result (parse_runtime text)
+      else bad
+  | L [t; flag; x] =>
+      if is_sym "serialize" t then
+        match dec_resource x with
+        | Some r => soutcome A (serialize_with_options (is_sym "true" flag) r)
+        | None => bad
+        end
+      else if is_sym "roundtrip" t then
+        match x with
+        | A text =>
+            let wj := is_sym "true" flag in
+            match parse text with
+            | Done (t1, _) =>
+                match serialize_with_options wj t1 with
+                | Done s1 =>
+                    match parse s1 with
+                    | Done (t2, _) =>
+                        match serialize_with_options wj t2 with
+                        | Done s2 => L [sym "ok"; enc_resource t1; A s1; enc_resource t2; A s2]
+                        | Panic m => L [sym "PANIC"; sym m]
+                        | OutOfFuel => sym "OUT-OF-FUEL"
+                        end
+                    | Panic m => L [sym "PANIC"; sym m]
+                    | OutOfFuel => sym "OUT-OF-FUEL"
+                    end
+                | Panic m => L [sym "PANIC"; sym m]
+                | OutOfFuel => sym "OUT-OF-FUEL"
+                end
+            | Panic m => L [sym "PANIC"; sym m]
+            | OutOfFuel => sym "OUT-OF-FUEL"
+            end
+        | _ => bad
+        end
       else bad
   | L [t; A pre; A e; A d; A post; _] =>
       if is_sym "damage" t then
